@@ -213,6 +213,7 @@ func checkC01(c *Ctx) {
 		c.Fail("proxy-not-customised", "httputil.ReverseProxy", "-", bad[0], bad...)
 	}
 	c.Floor("proxy-not-customised", len(created), 1, "NewSingleHostReverseProxy call sites")
+	c.copyBuffersExclusive()
 
 	// 4. transport does not re-code
 	ab := p.Fn("internal/loadbalancer", "LoadBalancer", "AddBackend")
@@ -1179,4 +1180,203 @@ func (c *Ctx) jumpLoop() (fn *ssa.Function, j *ssa.Phi, bound ssa.Value) {
 		return
 	}
 	return nil, nil, nil
+}
+
+// copyBuffersExclusive: a ReverseProxy.BufferPool hands the buffer through which one response body
+// is copied to the client; two copies running at the same time (any two requests) must never get
+// the same backing array, or bytes of one response appear inside another.  Every buffer Get returns
+// is therefore either allocated by that call, or taken from a sync.Pool whose New allocates on each
+// call (a pool item is owned by one taker between Get and Put).
+func (c *Ctx) copyBuffersExclusive() {
+	p := c.P
+	rule := "copy-buffers-exclusive"
+	n := 0
+	for _, fn := range p.Funcs {
+		if !p.InScope(fn) {
+			continue
+		}
+		instrsOf(fn, func(in ssa.Instruction) {
+			k, st := storeKey(in)
+			if k != "httputil.ReverseProxy.BufferPool" {
+				return
+			}
+			n++
+			construct := p.FuncKey(fn) + "/ReverseProxy.BufferPool"
+			mi, ok := st.Val.(*ssa.MakeInterface)
+			if !ok {
+				if cst, isK := st.Val.(*ssa.Const); isK && cst.Value == nil {
+					c.Pass(rule, construct, p.InstrPos(st), "no buffer pool installed (nil): every copy allocates its own buffer")
+					return
+				}
+				c.Undecided(rule, construct, p.InstrPos(st), "the installed buffer pool is not a concrete value: "+p.Desc(st.Val, nil))
+				return
+			}
+			ms := p.SSA.MethodSets.MethodSet(mi.X.Type())
+			var get *ssa.Function
+			for i := 0; i < ms.Len(); i++ {
+				if ms.At(i).Obj().Name() == "Get" {
+					get = p.SSA.MethodValue(ms.At(i))
+				}
+			}
+			if get == nil || get.Blocks == nil {
+				c.Undecided(rule, construct, p.InstrPos(st), "the pool's Get method has no analysable body")
+				return
+			}
+			if why := c.sharedBuffer(get, 0); why != "" {
+				c.Fail(rule, construct, p.InstrPos(st), "the proxy copy buffer is not exclusive to one response: "+why+" — two responses copied at the same time share a backing array and the client receives bytes of another response")
+				return
+			}
+			c.Pass(rule, construct, p.InstrPos(st), "every buffer "+p.FuncKey(get)+" returns is allocated by the call or comes from a sync.Pool whose New allocates per call")
+		})
+	}
+	if n == 0 {
+		c.Pass(rule, "httputil.ReverseProxy.BufferPool", "-", "no buffer pool is installed: httputil allocates a buffer per copy")
+	}
+}
+
+// sharedBuffer reports why a value returned by fn may be shared between calls ("" when every
+// returned buffer is exclusive).
+func (c *Ctx) sharedBuffer(fn *ssa.Function, depth int) string {
+	p := c.P
+	if depth > 4 {
+		return "allocation not found within 4 helper levels"
+	}
+	why := ""
+	instrsOf(fn, func(in ssa.Instruction) {
+		r, ok := in.(*ssa.Return)
+		if !ok || why != "" {
+			return
+		}
+		for _, res := range r.Results {
+			if w := c.sharedValue(res, fn, depth, map[ssa.Value]bool{}); w != "" {
+				why = p.InstrPos(r) + ": " + w
+				return
+			}
+		}
+	})
+	return why
+}
+
+func (c *Ctx) sharedValue(v ssa.Value, fn *ssa.Function, depth int, seen map[ssa.Value]bool) string {
+	p := c.P
+	if seen[v] {
+		return ""
+	}
+	seen[v] = true
+	switch x := v.(type) {
+	case *ssa.MakeSlice:
+		return ""
+	case *ssa.Alloc:
+		return ""
+	case *ssa.Const:
+		if x.Value == nil {
+			return ""
+		}
+	case *ssa.ChangeType:
+		return c.sharedValue(x.X, fn, depth, seen)
+	case *ssa.Convert:
+		return c.sharedValue(x.X, fn, depth, seen)
+	case *ssa.MakeInterface:
+		return c.sharedValue(x.X, fn, depth, seen)
+	case *ssa.Slice:
+		return c.sharedValue(x.X, fn, depth, seen)
+	case *ssa.TypeAssert:
+		return c.sharedValue(x.X, fn, depth, seen)
+	case *ssa.Extract:
+		return c.sharedValue(x.Tuple, fn, depth, seen)
+	case *ssa.UnOp:
+		if x.Op == token.MUL {
+			// *p where p is itself an exclusive allocation (pools of *[]byte)
+			return c.sharedValue(x.X, fn, depth, seen)
+		}
+	case *ssa.Phi:
+		for _, e := range x.Edges {
+			if w := c.sharedValue(e, fn, depth, seen); w != "" {
+				return w
+			}
+		}
+		return ""
+	case *ssa.Call:
+		switch CalleeName(x) {
+		case "(*sync.Pool).Get":
+			return c.poolNewShared(x.Call.Args[0], depth)
+		case "builtin:append":
+			return c.sharedValue(x.Call.Args[0], fn, depth, seen)
+		}
+		if callee := StaticFn(x); callee != nil && callee.Blocks != nil && p.IsHelios(callee) {
+			return c.sharedBuffer(callee, depth+1)
+		}
+	}
+	return "returns " + p.Desc(v, nil) + ", a value that outlives the call (captured variable, field or global)"
+}
+
+// poolNewShared: every store to the New field of the pool addressed by poolAddr installs a function
+// whose results are allocated per call.
+func (c *Ctx) poolNewShared(poolAddr ssa.Value, depth int) string {
+	p := c.P
+	fa, ok := poolAddr.(*ssa.FieldAddr)
+	var key string
+	if ok {
+		if fr, ok2 := fieldRefOf(fa); ok2 {
+			key = fr.Key()
+		}
+	}
+	if key == "" {
+		if g, isG := poolAddr.(*ssa.Global); isG {
+			key = "global:" + g.Name()
+		} else {
+			return "takes buffers from a sync.Pool that cannot be identified (" + p.Desc(poolAddr, nil) + ")"
+		}
+	}
+	found, why := false, ""
+	for _, fn := range p.Funcs {
+		instrsOf(fn, func(in ssa.Instruction) {
+			st, isStore := in.(*ssa.Store)
+			if !isStore || why != "" {
+				return
+			}
+			nf, isFA := st.Addr.(*ssa.FieldAddr)
+			if !isFA {
+				return
+			}
+			fr, ok := fieldRefOf(nf)
+			if !ok || fr.Key() != "sync.Pool.New" {
+				return
+			}
+			// the pool this New belongs to: a field of a struct (x.pool.New) or a global
+			owner := ""
+			if inner, isInner := nf.X.(*ssa.FieldAddr); isInner {
+				if ifr, ok := fieldRefOf(inner); ok {
+					owner = ifr.Key()
+				}
+			} else if g, isG := nf.X.(*ssa.Global); isG {
+				owner = "global:" + g.Name()
+			}
+			if owner != key {
+				return
+			}
+			found = true
+			var newFn *ssa.Function
+			switch f := stripConv(st.Val).(type) {
+			case *ssa.MakeClosure:
+				newFn = f.Fn.(*ssa.Function)
+			case *ssa.Function:
+				newFn = f
+			}
+			if newFn == nil || newFn.Blocks == nil {
+				why = "the pool's New is not a function literal (" + p.Desc(st.Val, nil) + ")"
+				return
+			}
+			if w := c.sharedBuffer(newFn, depth+1); w != "" {
+				why = "the pool's New does not allocate per call: " + w
+			}
+		})
+	}
+	if why != "" {
+		return why
+	}
+	if !found {
+		return "takes buffers from a sync.Pool whose New is never set in analysed code (" + key + ")"
+	}
+	return ""
 }
